@@ -479,6 +479,18 @@ class Quaternion(Vector):
             quat_over_s[mask,j+1] = Q[mask,i,j] + Q[mask,j,i]
             quat_over_s[mask,k+1] = Q[mask,i,k] + Q[mask,k,i]
 
+        # Where the trace is positive, the scalar component is the largest one
+        # and serves as the pivot instead. This includes the identity matrix,
+        # for which the formulas above reduce to 0/0.
+        mask = (trace > 0.)
+        if np.any(mask):
+            r_sq = 1. + trace[mask]
+            quat_over_s[mask,0] = r_sq
+            quat_over_s[mask,1] = Q[mask,2,1] - Q[mask,1,2]
+            quat_over_s[mask,2] = Q[mask,0,2] - Q[mask,2,0]
+            quat_over_s[mask,3] = Q[mask,1,0] - Q[mask,0,1]
+            s[mask] = 0.5 / np.sqrt(r_sq)
+
         obj = Quaternion((quat_over_s * s[...,np.newaxis])[0], matrix._mask_)
 
         # The following code does not work, perhaps because of the vague meaning
